@@ -82,10 +82,10 @@ def index? (ds : DimSet) (key : String) : Option Nat :=
     let i := ds.idxOf d
     if i < ds.length then some i else none
 
-/-- `get_subset(dims)`: **no** validation of the result (model_copy + attribute assignment) -/
+/-- `get_subset(dims)`: a copy, or a newly constructed (validated) set of the selected dimensions -/
 def getSubset? (ds : DimSet) : Option (List String) → Option DimSet
   | none => some ds
-  | some keys => keys.mapM (lookup? ds)
+  | some keys => (keys.mapM (lookup? ds)).bind mk?
 
 /-- `expand_by(added, inplace=False)` -/
 def expandBy? (ds : DimSet) (added : List Dim) : Option DimSet :=
